@@ -595,6 +595,51 @@ def v_poll(object_list, timeout):
 _real_conn_poll = None
 
 
+def _real_select_poll(fds, timeout):
+    import select
+    if timeout is not None:
+        timeout = int(timeout * 1000)
+    p = select.poll()
+    m = {}
+    for fd in fds:
+        p.register(fd, select.POLLIN)
+        m[fd.fileno() if hasattr(fd, 'fileno') else fd] = fd
+    out = []
+    for fd, event in p.poll(timeout):
+        if event & select.POLLNVAL:
+            raise ValueError('invalid file descriptor %i' % fd)
+        out.append(m[fd])
+    return out
+
+
+class _VPollster:
+    def __init__(self):
+        self.objs = []
+
+    def register(self, fd, eventmask=None):
+        self.objs.append(fd)
+
+    def poll(self, timeout=None):
+        import select
+        t = None if timeout is None else timeout / 1000.0
+        num = lambda o: o.fileno() if hasattr(o, 'fileno') else o  # noqa
+        return [(num(o), select.POLLIN) for o in v_poll(self.objs, t)]
+
+
+class _SelectNS:
+    """``select`` as seen by billiard.connection."""
+
+    def __getattr__(self, name):
+        import select
+        return getattr(select, name)
+
+    def poll(self):
+        return _VPollster()
+
+    def select(self, r, w, x, timeout=None):
+        return v_poll(list(r), timeout), [], []
+
+
 def v_urandom(n):
     w = _active()
     if w is None:
@@ -802,8 +847,14 @@ def bind_billiard():
     import billiard.connection as bc
     import billiard.synchronize as bs
     if _real_conn_poll is None:
-        _real_conn_poll = bc._poll
-        bc._poll = v_poll
+        if hasattr(bc, '_poll'):
+            _real_conn_poll = bc._poll
+            bc._poll = v_poll
+        else:
+            # the private readiness helper was renamed or inlined: virtualise
+            # one level further down, at the ``select`` module it uses
+            _real_conn_poll = _real_select_poll
+            bc.select = _SelectNS()
     bs._billiard = _BilliardNS()
     import billiard.compat as bcompat
     _rsb = bcompat.setblocking
